@@ -144,7 +144,7 @@ def run_job(job):
     J = Job(job)
     if job.get("fn") == "reduce":
         return run_paths(J, lambda ctx: path_reduce(J, ctx, job["kind"], job["n"], job["cfg"]), max_paths=50)
-    r = run_paths(J, lambda ctx: path(J, ctx, job["kind"], job["m"], job["n"], job["cfg"]), max_paths=400)
+    r = run_paths(J, lambda ctx: path(J, ctx, job["kind"], job["m"], job["n"], job["cfg"]), max_paths=600 if job.get("tier") == "thorough" else 400, timeout_ms=400000 if job.get("tier") == "thorough" else 90000)
     if r["vacuity"] is None:
         r["vacuity"] = bool(J.extra.get("paths_match") or J.extra.get("paths_none") or J.extra.get("mock_finder_paths"))
     return r
